@@ -454,6 +454,80 @@ def check_tower(case):
                 show="{!r} vs {!r}".format(a, b))
 
 
+@st.composite
+def sum_cases(draw, tier):
+    """ Two formal sums over generated types, the second a one-step mutation
+    of the first (or the same): a term dropped, added or moved, the domain or
+    the codomain replaced. Empty sums carry nothing but their types. """
+    cls = draw(st.sampled_from(CLASSES))
+    pool = []
+    first = draw(gen.diagrams(cls, pool=pool, max_boxes=2, max_width=3))
+    dom, cod = first["dom"], specs.spec_cod(first)
+    n = draw(st.sampled_from([0, 0, 1, 2, 3]))
+    terms = ([first] + [draw(gen.diagrams_to(
+        cls, dom, cod, pool=pool, max_boxes=2, max_width=3))
+        for _ in range(n - 1)]) if n else []
+    a = {"cls": cls, "dom": dom, "cod": cod, "terms": terms}
+    kind = draw(st.sampled_from(["same", "dom", "cod", "drop", "add",
+                                 "move"]))
+    b = dict(a)
+    other = draw(gen.types(cls, 0, 2, gen.CLASS_NAMES.get(cls, gen.NAMES),
+                           1 if cls == "rigid" else 0))
+    if cls == "cat":
+        other = other[:1] or [["c", 0]]
+    if kind in ("dom", "cod") and not terms:
+        b[kind] = other
+    elif kind == "drop" and terms:
+        i = draw(st.integers(0, n - 1))
+        b["terms"] = terms[:i] + terms[i + 1:]
+    elif kind == "add":
+        b["terms"] = terms + [draw(gen.diagrams_to(
+            cls, dom, cod, pool=pool, max_boxes=2, max_width=3))]
+    elif kind == "move" and n >= 2:
+        b["terms"] = terms[1:] + terms[:1]
+    return {"a": a, "b": b, "mutation": kind}
+
+
+def build_sum(spec):
+    cls = spec["cls"]
+    if cls == "cat":
+        from discopy import cat
+        factory = cat.Arrow.sum
+    else:
+        factory = specs.mod(cls).Diagram.sum
+    return factory([specs.build(t) for t in spec["terms"]],
+                   specs.ty(cls, spec["dom"]), specs.ty(cls, spec["cod"]))
+
+
+def check_sums(case):
+    sa, sb = case["a"], case["b"]
+    cls = sa["cls"]
+    a, b = build_sum(sa), build_sum(sb)
+    pairs = list(zip(sa["terms"], sb["terms"]))
+    if len(sa["terms"]) == len(sb["terms"]) and any(
+            word_only(x, y) for x, y in pairs):
+        return dict(nt=False, labels=["word-vs-box"])
+    expected = specs.skey_ty(sa["dom"]) == specs.skey_ty(sb["dom"])\
+        and specs.skey_ty(sa["cod"]) == specs.skey_ty(sb["cod"])\
+        and len(sa["terms"]) == len(sb["terms"])\
+        and all(canon(x) == canon(y) for x, y in pairs)
+    got = lib_eq(a, b)
+    require(got == expected, "C03:sum-eq-vs-structure" + (
+        ":equal-values-unequal" if expected else ":different-values-equal"),
+        lambda: "{!r} == {!r} is {} (mutation {})".format(
+            a, b, got, case["mutation"]))
+    require(lib_eq(a, a), "C03:reflexive", "")
+    if expected:
+        require(hash(a) == hash(b), "C03:hash", lambda: "{!r} / {!r}".format(
+            a, b))
+        require({a: 1}[b] == 1, "C03:dict-lookup", "")
+    roundtrip(a, cls, "sum")
+    return dict(nt=not sa["terms"] or case["mutation"] != "same",
+                labels=[cls, case["mutation"], "terms%d" % len(sa["terms"]),
+                        "equal" if expected else "different"],
+                show="{!r} vs {!r}".format(a, b)[:400])
+
+
 core.register("C03", [
     Facet("pairs", pair_cases, check_pair, n_quick=2400, shards_quick=6,
           rule=RULE),
@@ -465,6 +539,10 @@ core.register("C03", [
     Facet("functor_keys", functor_cases, check_functor_keys, n_quick=600,
           shards_quick=2, rule="functor keyed by constructor-built boxes "
           "applied to slice-built boxes"),
+    Facet("sums", sum_cases, check_sums, n_quick=1200, shards_quick=4,
+          rule="pairs of formal sums with 0-3 terms (a term dropped, added or "
+          "moved; the types of an empty sum replaced); non-trivial = an "
+          "empty sum or a mutated one"),
     Facet("bubbles", bubble_cases, check_bubbles, n_quick=400,
           rule="bubbles of equal / different insides, with and without "
           "explicit dom/cod"),
